@@ -108,10 +108,6 @@ impl Counter {
         self.counter.fetch_sub(1, Ordering::Relaxed) == self.limit.wrapping_add(1)
     }
 
-    pub(crate) fn total(&self) -> usize {
-        self.counter.load(Ordering::SeqCst) - 1
-    }
-
     /// raw in-progress count as the accept thread sees it (hooks only; wraps instead of underflowing)
     #[cfg(actix_net_verif)]
     pub(crate) fn verif_total(&self) -> usize {
@@ -146,8 +142,13 @@ impl WorkerCounter {
         WorkerCounterGuard(self.clone())
     }
 
+    /// Number of connections this worker has taken and not finished yet (live guards).
+    ///
+    /// This does not read the shared atomic counter: the accept thread increments it lazily after a
+    /// dispatch, so it can still be one short (or underflow) when the worker is already serving
+    /// the connection.
     fn total(&self) -> usize {
-        self.inner.1.total()
+        Rc::strong_count(&self.inner) - 1
     }
 }
 
